@@ -37,3 +37,44 @@ def validate(ctx, trace, only, require_events=50, timeout=1800):
             break
     return ctx.validate("RouterTrace", trace, keyfn, describe=describe, timeout=timeout,
                         require_events=require_events, only=only)
+
+
+def partition_by_name(trace, out):
+    """Project a router trace onto independent sub-traces, one per (lower-cased) question name; each starts
+    with the cfg event (which resets the trace specification's state). Sound for per-question invariants
+    (provenance, header, cache key) because every event of a question carries its name or its query number."""
+    cfg = None
+    groups = {}
+    order = []
+    qname = {}
+
+    def key_of(labels):
+        return tuple(bytes(x).lower() for x in labels)
+
+    for line in open(trace):
+        e = json.loads(line)
+        ev = e.get("ev")
+        if ev == "cfg":
+            cfg = line
+            continue
+        if ev in ("pf.reserve", "pf.done", "lim.cl", "note"):
+            continue
+        k = None
+        if "name" in e and isinstance(e["name"], list):
+            k = key_of(e["name"])
+            if ev == "cl.send":
+                qname[e["qn"]] = k
+        if ev in ("cl.recv", "cl.none"):
+            k = qname.get(e.get("qn"))
+        if k is None:
+            continue
+        if k not in groups:
+            groups[k] = []
+            order.append(k)
+        groups[k].append(line)
+    with open(out, "w") as o:
+        for k in order:
+            o.write(cfg)
+            for line in groups[k]:
+                o.write(line)
+    return len(order)
